@@ -20,11 +20,10 @@ from common import canon_err
 PROP = "C18"
 LEAN_MODULE = "SkVerif.Props.C18"
 OBLIGATIONS = [
-    "SkVerif.C18.parse_write_roundtrip_partial",
+    "SkVerif.C18.parse_write_roundtrip",
+    "SkVerif.C18.parse_write_roundtrip_labelled",
+    "SkVerif.C18.parse_write_roundtrip_nolabels",
     "SkVerif.C18.roundtrip_preserves_instances_and_lengths",
-    "SkVerif.C18.roundtrip_without_labels_is_rejected",
-    "SkVerif.C18.roundtrip_without_labels_witness",
-    "SkVerif.C18.parse_writeFixed_roundtrip_nolabels",
     "SkVerif.C18.label_with_question_mark_is_rewritten",
     "SkVerif.C18.float_tokens_denote_decimal_values",
     "SkVerif.C18.roundtrip_concrete_values",
@@ -64,7 +63,7 @@ LEVEL_TEXT = ("proof for the model: parse(write(panel, labels, options)) returns
               "printed tokens denote and the case/space-normalised labels, for every univariate panel, label list and writer option; "
               "the model is tied to data_io.py / datasets/base.py by a differential correspondence check")
 LEVEL_NOTE = ("printed precision (pandas formatting), read_csv, the arff multivariate branch and the bundled loaders are observed "
-              "by correspondence/oracle only; files without class labels do not round-trip in the code as it stands (known finding)")
+              "by correspondence/oracle only; class values containing '?' are rewritten on load (known finding, excluded by hypothesis)")
 TECHNIQUE = "Lean 4 model + theorems by induction on text; differential correspondence on generated and bundled files"
 
 DATA = None
@@ -296,7 +295,7 @@ _RT_MEMO = {}
 
 
 def _rt_obs(c):
-    """run the real writer and loader once per case: (write error | None, text, p, pf)"""
+    """run the real writer and loader once per case: (write error | None, text, p)"""
     key = json.dumps(c, sort_keys=True, default=str)
     if key in _RT_MEMO:
         return _RT_MEMO[key]
@@ -313,19 +312,13 @@ def _rt_obs(c):
         try:
             write_dataframe_to_tsfile(df, d, **kw)
         except Exception as e:
-            r = (canon_err(e), None, "-", "-")
+            r = (canon_err(e), None, "-")
             _RT_MEMO[key] = r
             return r
         path = os.path.join(d, c["name"], c["name"] + "_transform.ts")
         with open(path, "r", encoding="utf-8") as f:
             text = f.read()
-        pf = "-"
-        if not c.get("cl"):
-            # known finding: label-free files carry an unparsable header line; observe the loader on the same
-            # file with that one line repaired, so that label-free panels are still exercised end to end
-            p2 = _write_tmp(d, "repaired.ts", text.replace("@class_label false\n", "@classLabel false\n", 1))
-            pf = _try(lambda: _load_ts(p2))
-        r = (None, text, _try(lambda: _load_ts(path)), pf)
+        r = (None, text, _try(lambda: _load_ts(path)))
     if len(_RT_MEMO) > 20000:
         _RT_MEMO.clear()
     _RT_MEMO[key] = r
@@ -333,11 +326,11 @@ def _rt_obs(c):
 
 
 def _rt(c):
-    err, text, p, pf = _rt_obs(c)
+    err, text, p = _rt_obs(c)
     if err is not None:
-        return "w=%s p=- pf=- pr=-" % err
+        return "w=%s p=- pr=-" % err
     # w (the exact text) is reported but not compared: the property speaks about what is loaded back
-    return "w=%s p=%s pf=%s pr=%s" % (enc(text), p, pf, p)
+    return "w=%s p=%s pr=%s" % (enc(text), p, p)
 
 
 def _render_ts(g, name="gen"):
@@ -476,7 +469,7 @@ def to_line(c):
     if k == "rt":
         if c["ts"]:
             return None     # @timeStamps true: the loader takes the timestamp branch (not modelled)
-        err, text, _, _ = _rt_obs(c)
+        err, text, _ = _rt_obs(c)
         return "C18 rt %s %s %s %s %d %s %s %s %s %s %s" % (
             enc(c["name"]), show_bool(c["ts"]), show_bool(c["uni"]), show_bool(c["eq"]), c["sl"], enc(str(c["sl"])),
             enc_list(comment_lines(c)), enc_list([str(x) for x in (c.get("cl") or [])]),
@@ -552,14 +545,7 @@ def oracle(c, out):
         r = parse_result(d["p"])
         if r is None:
             fails.append((site + ":load-rejected", "the written file does not load: %s" % d["p"]))
-            if has_labels:
-                return fails
-            # label-free files: continue on the file with the repaired header line (see known finding)
-            site = "ts-roundtrip:no-labels(repaired-header)"
-            r = parse_result(d.get("pf", "-"))
-            if r is None:
-                fails.append((site + ":load-rejected", "the written file does not load even with '@classLabel false': %s" % d.get("pf")))
-                return fails
+            return fails
         nd, labels, dims = r
         X = c["X"]
         if nd != 1 or len(dims[0]) != len(X):
